@@ -68,12 +68,37 @@ def hx(b):
 OFFSET_KEYS = ("signature", "share_hash_chain", "block_hash_tree", "share_data", "enc_privkey", "EOF")
 
 
+# every key that occurs in an offsets tuple, in Python's string order: a verinfo's offsets_tuple is a tuple of
+# (name, offset) pairs and Python compares it pair by pair, name first.  The MDMF write proxy and the read proxy list
+# the same names in DIFFERENT orders (dict insertion order), so the publisher's verinfo and the surveyor's verinfo of
+# one version are different tuples; the model must see exactly that, hence the pairs travel as (rank of name, offset).
+OFFSET_NAMES = sorted(["signature", "share_hash_chain", "block_hash_tree", "share_data", "enc_privkey", "EOF",
+                       "verification_key", "verification_key_end"])
+
+
+def _name_rank(name):
+    name = name if isinstance(name, str) else name.decode("latin-1")
+    if name in OFFSET_NAMES:
+        return 2 * OFFSET_NAMES.index(name) + 1
+    import bisect
+    return 2 * bisect.bisect_left(OFFSET_NAMES, name)      # unknown names keep their place in string order
+
+
 def enc_ver(v):
-    """verinfo tuple -> driver token seq/roothash/iv/segsize/datalen/k/n/prefix/offsets"""
+    """verinfo tuple -> driver token seq/roothash/iv/segsize/datalen/k/n/prefix/offsets
+    offsets = rank(name),offset,rank(name),offset,… in the tuple's own order"""
     (seqnum, root_hash, iv, segsize, datalength, k, n, prefix, offsets_tuple) = v
-    offs = ",".join(str(val) for (_key, val) in offsets_tuple) or "-"
+    offs = ",".join("%d,%d" % (_name_rank(key), val) for (key, val) in offsets_tuple) or "-"
     return "/".join([str(seqnum), hx(root_hash), "N" if iv is None else hx(iv), str(segsize), str(datalength),
                      str(k), str(n), hx(prefix), offs])
+
+
+def dec_offsets(field):
+    """inverse of the offsets part of enc_ver (known names only)"""
+    if field == "-":
+        return ()
+    xs = [int(x) for x in field.split(",")]
+    return tuple((OFFSET_NAMES[(xs[i] - 1) // 2], xs[i + 1]) for i in range(0, len(xs), 2))
 
 
 def vtable(vers):
